@@ -246,14 +246,23 @@ func runC10(m *Sim) {
 		switch m.C.Weighted("tamper", 6, 2, 2, 3, 3, 2, 3, 3, 2, 2) {
 		case 0: // single bit flip: prefix, timestamp and signature always in reach
 			var bit int
-			switch m.C.Int("region", 4) {
+			switch m.C.Int("region", 7) {
 			case 0:
 				bit = m.C.Int("bit", 16)
 			case 1:
 				bit = (len(genuine)-72)*8 + m.C.Int("bit", 64)
 			case 2:
 				bit = (len(genuine)-64)*8 + m.C.Int("bit", 512)
+			case 3: // the last bytes before the GCA signature: the last server entry
+				bit = (len(genuine)-136-1-m.C.Int("back", 110))*8 + m.C.Int("bit", 8)
+			case 4: // the GCA signature
+				bit = (len(genuine)-136)*8 + m.C.Int("bit", 512)
+			case 5: // device key, offset, first and last bitfield bytes
+				bit = []int{2, 33, 34, 37, 38, 541}[m.C.Int("which", 6)]*8 + m.C.Int("bit", 8)
 			default:
+				bit = m.C.Int("bit", len(genuine)*8)
+			}
+			if bit < 0 || bit >= len(genuine)*8 {
 				bit = m.C.Int("bit", len(genuine)*8)
 			}
 			b := append([]byte{}, genuine...)
@@ -300,7 +309,17 @@ func runC10(m *Sim) {
 			k := []*KeyPair{gca, dev.Key, other.Key, n.Temp, newGCA, Key("rogue")}[m.C.Int("signer", 6)]
 			expectReject("resign", "re-signed-by-"+k.Role, SealSyncReply(body, tnow, k))
 		case 5: // timestamp shifts, correctly signed by the server key
-			switch m.C.Int("shift", 4) {
+			switch m.C.Int("shift", 9) {
+			case 4: // wrap-arounds and unit slips of the timestamp
+				expectReject("time-reject", "time+2^32", SealSyncReply(body, tnow+1<<32, n.Key))
+			case 5:
+				expectReject("time-reject", "time-2^32", SealSyncReply(body, tnow-1<<32, n.Key))
+			case 6:
+				expectReject("time-reject", "time-in-milliseconds", SealSyncReply(body, tnow*1000, n.Key))
+			case 7:
+				expectReject("time-reject", "time-zero", SealSyncReply(body, 0, n.Key))
+			case 8:
+				expectReject("time-reject", "time+2^63", SealSyncReply(body, tnow+1<<63, n.Key))
 			case 0:
 				expectAccept("time-accept", "time+86400", SealSyncReply(body, tnow+86400, n.Key))
 			case 1:
@@ -312,7 +331,12 @@ func runC10(m *Sim) {
 			}
 		case 6: // a correctly signed reply bound to another device's key
 			b := append([]byte{}, body...)
-			copy(b[:32], other.Key.Pub[:])
+			if m.C.Chance("near-key", 1, 2) {
+				// a key that differs from the device's own in one byte only
+				b[[]int{0, 15, 16, 31}[m.C.Int("key-byte", 4)]] ^= 0x40
+			} else {
+				copy(b[:32], other.Key.Pub[:])
+			}
 			expectReject("other-device", "other-device-key", SealSyncReply(b, tnow, n.Key))
 		case 7: // server entries with a missing or foreign GCA signature (server-signed reply)
 			as := server.AuthorizedServer{PublicKey: Key("evil").Pub, Location: "evil.sim", HttpPort: 1, TcpPort: 2, UdpPort: 3}
